@@ -55,10 +55,23 @@ def wrap_X(X, xdtype):
 def run_impl(d):
     """('ok', X_thresholds_, y_thresholds_, predictions (None = not finite)) or (exception class,)"""
     from model_diagnostics._utils.isotonic import IsotonicRegression
-    m = IsotonicRegression(increasing=d["inc"], functional=d["functional"], level=d["level"])
+    if d.get("reuse"):
+        # the estimator is constructed with OTHER hyper-parameters, fitted once, and then re-parameterised through its
+        # public attributes (scikit-learn convention: fit reads the hyper-parameters at fit time)
+        m = IsotonicRegression(increasing=not d["inc"], functional="mean", level=0.5)
+        try:
+            m.fit([0.0, 1.0, 2.0], [1.0, 0.0, 2.0])
+        except Exception:  # noqa: BLE001
+            pass
+        m.increasing, m.functional, m.level = d["inc"], d["functional"], d["level"]
+    else:
+        m = IsotonicRegression(increasing=d["inc"], functional=d["functional"], level=d["level"])
+    yarg = list(d["y"])
+    if d.get("ydtype"):
+        yarg = np.asarray(d["y"]).astype({"bool": np.bool_, "u8": np.uint8, "i8": np.int8, "f32": np.float32}[d["ydtype"]])
     try:
         with np.errstate(all="ignore"):
-            m.fit(wrap_X(d["X"], d["xdtype"]), list(d["y"]), None if d["w"] is None else list(d["w"]))
+            m.fit(wrap_X(d["X"], d["xdtype"]), yarg, None if d["w"] is None else list(d["w"]))
             p = m.predict(np.asarray(d["q"], dtype=float)) if d["q"] else np.zeros(0)
     except ValueError:
         return ("ValueError",)
@@ -317,8 +330,11 @@ def pinball_optimum_groups(groups, a):
     return min(best)
 
 
+SCALE = [1.0]      # natural magnitude of the case being judged: min(1, max |y|); tolerances are relative to it
+
+
 def close(a, b, tol=1e-9):
-    return abs(float(a) - float(b)) <= tol * (1 + abs(float(a)))
+    return abs(float(a) - float(b)) <= tol * (SCALE[0] + abs(float(a)))
 
 
 def refit_predict(d, perm, qs):
@@ -333,6 +349,8 @@ def refit_predict(d, perm, qs):
 def judge_case(d, brute_limit=16):
     """list of violated clauses of C11 on the implementation ([] if none), observation"""
     d = dict(d)
+    my = max([abs(float(v)) for v in d["y"]] or [0.0])
+    SCALE[0] = min(1.0, my) if my > 0 and math.isfinite(my) else 1.0
     groups = group_rows(d) if d["X"] and len(d["X"]) == len(d["y"]) else []
     xs = [float(g[0]) for g in groups]
     # the judge asks for the predictions at every distinct training X as well
@@ -464,7 +482,7 @@ def minimise(d, fails):
 
 
 def clean(d):
-    return {k: d[k] for k in ("X", "y", "w", "inc", "functional", "level", "q", "xdtype", "kind") if k in d}
+    return {k: d[k] for k in ("X", "y", "w", "inc", "functional", "level", "q", "xdtype", "kind", "ydtype", "reuse") if k in d}
 
 
 # ---------------------------------------------------------------------- modes
@@ -597,6 +615,44 @@ def mode_search(seed, budget, dtypes):
                     for inc in (True, False):
                         try_case(dict(X=list(X), y=list(y), w=w, inc=inc, functional=fn,
                                       level=0.5 if fn != "quantile" else [0.25, 0.75][k % 2], q=q, xdtype=xdtype))
+    # directed probes: tiny magnitudes (exact scaling by 2^-30), exotic y dtypes (same numbers), re-parameterised estimator
+    base = [([0.0, 1.0, 2.0, 3.0], [1.0, 2.0, 3.0, 4.0]), ([0.0, 1.0, 2.0, 3.0], [2.0, 1.0, 4.0, 3.0]), ([2.0, 0.0, 1.0, 1.0, 3.0], [1.0, 3.0, 2.0, 5.0, 4.0]),
+            ([0.0, 1.0, 2.0], [1.0, 1.5, 1.25])]
+    for X, y in base:
+        for fn in ("mean", "expectile", "median", "quantile"):
+            for inc in (True, False):
+                if len(found) >= 3:
+                    break
+                yy = y if inc else y[::-1]
+                xs = sorted(set(X))
+                q = xs + [(a + b) / 2 for a, b in zip(xs, xs[1:])] + [xs[0] - 1, xs[-1] + 1]
+                lvl = 0.5 if fn in ("mean", "median") else 0.25
+                w = None if fn in ("median", "quantile") else [1.0, 2.0, 1.0, 3.0, 1.0][: len(X)]
+                d0 = dict(X=list(X), y=list(yy), w=w, inc=inc, functional=fn, level=lvl, q=q, xdtype="f64")
+                try_case(dict(d0, y=[v * 2.0 ** -30 for v in yy]))
+                try_case(dict(d0, y=[v * 2.0 ** -30 for v in yy], w=None))
+                try_case(dict(d0, reuse=True))
+    boolish = [([0.0, 1.0, 2.0, 3.0, 4.0], [1.0, 0.0, 1.0, 0.0, 1.0]), ([0.0, 1.0, 2.0, 3.0], [1.0, 1.0, 0.0, 1.0]), ([0.0, 0.0, 1.0, 2.0, 2.0, 3.0], [1.0, 0.0, 1.0, 1.0, 0.0, 1.0])]
+    for X, y in boolish:
+        for fn in ("mean", "expectile", "median"):
+            for ydt in ("bool", "u8", "i8", "f32"):
+                for inc in (True, False):
+                    if len(found) >= 3:
+                        break
+                    xs = sorted(set(X))
+                    q = xs + [(a + b) / 2 for a, b in zip(xs, xs[1:])]
+                    d0 = dict(X=list(X), y=list(y if inc else y[::-1]), w=None, inc=inc, functional=fn, level=0.5, q=q, xdtype="f64", ydtype=ydt)
+                    o = run_impl(d0)
+                    if o[0] != "ok" and ydt in ("bool", "u8", "i8"):
+                        tried += 1
+                        continue       # rejecting an exotic dtype is fine; returning wrong numbers for it is not
+                    try_case(d0)
+    big = [float(v) for v in ([100, 90, 120, 80] * 40)]          # pooled blocks of more than 127 / 255 rows (small-integer weights overflow)
+    for ydt in ("u8", "i8"):
+        d0 = dict(X=[float(i) for i in range(len(big))], y=[v - 60 if ydt == "i8" else v for v in big], w=None, inc=False, functional="mean", level=0.5,
+                  q=[0.0, 80.0, 159.0], xdtype="f64", ydtype=ydt)
+        if len(found) < 3 and run_impl(d0)[0] == "ok":
+            try_case(d0)
     rng = random.Random(seed)
     while tried < budget and len(found) < 3:
         try_case(gen_case(rng, 14, tuple(dtypes)))
